@@ -24,6 +24,8 @@ type batchModel struct {
 	// unitRecurrent: the model holds an RNN/GRU/LSTM whose input_size is 1, so a single sample is a
 	// one-element matrix per step (input class of KF-C16-recurrent-single-sample-unit-input)
 	unitRecurrent bool
+	// unitMatMul: the model holds a batched MatMul whose matrix has one element for a single sample
+	unitMatMul bool
 }
 
 func (bm *batchModel) selectFeed(feed gonnx.Tensors, rows []int) gonnx.Tensors {
@@ -63,6 +65,9 @@ func (bm *batchModel) checkRelation(full gonnx.Tensors, feed gonnx.Tensors, rows
 	}
 	if rr.err != nil {
 		if bm.unitRecurrent && len(rows) == 1 && kfAccept("KF-C16-recurrent-single-sample-unit-input") {
+			return ""
+		}
+		if bm.unitMatMul && len(rows) == 1 && kfAccept("KF-C16-matmul-single-sample-unit-matrix") {
 			return ""
 		}
 		return fmt.Sprintf("%s: Run on rows %v fails although the whole batch was computed: %v", what, rows, rr.err)
@@ -155,7 +160,7 @@ func TestC16(t *testing.T) {
 		ev.Class("guard", "softmax-over-batch-axis-flagged")
 	})
 
-	check(t, "sample-models", 200, 1500, func(rt *rapid.T) {
+	check(t, "sample-models", 600, 1500, func(rt *rapid.T) {
 		sms := sampleModels()
 		names := []string{"gru", "gru", "mlp", "scaler"}
 		if rapid.IntRange(0, 19).Draw(rt, "ndm") == 0 {
@@ -186,7 +191,7 @@ func TestC16(t *testing.T) {
 		}
 	})
 
-	check(t, "generated", 400, 3000, func(rt *rapid.T) {
+	check(t, "generated", 2000, 6000, func(rt *rapid.T) {
 		gg := genGraph(rt, ggOpts{maxNodes: 8, perSample: true, continuousOnly: true, allOutputs: rapid.Bool().Draw(rt, "allOutputs")})
 		mp := gg.model(rt)
 		lr := loadBytes(marshalModel(mp))
@@ -195,7 +200,8 @@ func TestC16(t *testing.T) {
 		}
 		n := rapid.IntRange(1, 5).Draw(rt, "N")
 		feed := gg.feed(rt, n)
-		bm := &batchModel{desc: gg.String(), m: lr.m, inBatch: map[string]int{}, outBatch: map[string]int{}, depth: len(gg.nodes) + 1, unitRecurrent: gg.feats["recurrent-input-size-1"] > 0}
+		bm := &batchModel{desc: gg.String(), m: lr.m, inBatch: map[string]int{}, outBatch: map[string]int{}, depth: len(gg.nodes) + 1, unitRecurrent: gg.feats["recurrent-input-size-1"] > 0,
+			unitMatMul: gg.feats["matmul-unit-matrix-for-single-sample"] > 0}
 		for _, in := range gg.inputs {
 			bm.inBatch[in.name] = in.batch
 		}
@@ -240,6 +246,12 @@ func hashFeed(feed gonnx.Tensors) uint64 {
 var _ = tensor.Float32
 
 func init() {
+	kfRepro["KF-C16-matmul-single-sample-unit-matrix"] = func() (bool, string) {
+		w := mkT([]int{1, 2}, []float32{2, 3})
+		two := runOp("MatMul", mkNode("MatMul", nil, nil), []tensor.Tensor{mkT([]int{1, 2, 1}, []float32{1, 2}), w})
+		one := runOp("MatMul", mkNode("MatMul", nil, nil), []tensor.Tensor{mkT([]int{1, 1, 1}, []float32{1}), cloneT(w)})
+		return two.ok() && !one.ok(), fmt.Sprintf("MatMul((1,N,1),(1,2)): N=2 -> %v; N=1 -> %v", two, one)
+	}
 	kfRepro["KF-C16-recurrent-single-sample-unit-input"] = func() (bool, string) {
 		c := rnnCase{kind: "RNN", S: 2, B: 2, I: 1, H: 2, dt: tensor.Float32, lbr: -1, inputForget: -1, explicitNil: true}
 		c.X, c.W, c.R = []float32{1, 2, 3, 4}, []float32{0.5, -0.5}, []float32{0.25, 0.5, -0.25, 0.125}
